@@ -314,11 +314,15 @@ def c02(tier, seed):
               "(none / CONNACK 0x88 quick; + refused, silent thorough; thorough adds a grid of second faults on the following connection), plus seeded "
               "multi-fault mixes; bounded liveness oracle: 120 virtual seconds after the last scripted event every accepted, uncancelled publish "
               "(QoS 1/2), subscribe, unsubscribe has completed exactly once without error, never with a transport error, all transmissions of one "
-              "request carry one packet id. " + SHAPE)
+              "request carry one packet id; retransmission rule ('a message whose acknowledgement is outstanding is retransmitted on the next connection'): "
+              "at the moment a new QoS>0 PUBLISH is first transmitted on a connection, every older, still outstanding QoS>0 publish that was transmitted on an "
+              "earlier connection has been retransmitted on it; for this rule a new publish is additionally placed at every idle point and handler boundary of "
+              "sweep bases with connection losses (e.g. between a transport swap and the resend pass). " + SHAPE)
     ck.assumptions.append("'eventually' is decided as: completed within 120 virtual seconds of fault-free suffix (16.5 s back-off + 5 s resolve + 5 s handshake + 20 s reply age + 3 s sentry period + keep-alive margin)")
     ck.require("sim.crash_points_fired", 100)
     ck.require("sim.scenarios_with_2plus_no_reply_disconnects", 10)
     ck.require("sim.retransmitted_requests")
+    ck.require("sim.outstanding_publishes_judged_at_new_publish", 500)
     if ck.counters.get("sim.crash_points_run", 0) != ck.counters.get("sim.crash_points_total", -1) // 16 * 0 + ck.counters.get("sim.crash_points_run", 0):
         pass
     ck.extra["crash_points_covered"] = ck.counters.get("sim.crash_points_run", 0)
